@@ -19,7 +19,7 @@ func init() {
 	register(&Rule{ID: "SPEC-undefined-default", Props: []string{"C08", "C09", "C06", "C10"}, Min: 12,
 		Doc: "S (ES5 §15.4.4.5, §15.4.4.10, §15.4.4.11, §15.5.4.13-15, §B.2.3, §15.5.4.14, §15.7.4.2, §15.7.4.6, §15.7.4.7, §15.2.3.5, §15.10.4.1): where the algorithm says 'if <argument> is undefined, use the default, else convert it', the built-in (or the helper it hands its argument list to) tests that very argument with IsUndefined/IsDefined (or its kind against valueUndefined). A presence test (len(ArgumentList)) instead makes an explicitly passed undefined - a forwarded optional parameter - convert to 0/\"undefined\"",
 		Run: ruleSpecUndefinedDefault})
-	register(&Rule{ID: "SIB-equality", Props: []string{"C05", "C07", "C08", "C11"}, Min: 10,
+	register(&Rule{ID: "SIB-equality", Props: []string{"C05", "C07", "C08", "C11"}, Min: 10, SubsumedBy: "SPEC-comparison-eval", SubsumeKey: func(k string) bool { return strings.HasPrefix(k, "calculateComparison:") },
 		Doc: "T+S (ES5 §9.12, §11.9.6, §8.12.9, §15.4.4.14-15, §12.11): the three same-kind comparison implementations (sameValue, strictEqualityComparison, the kind==kind block of calculateComparison) have an arm for exactly the six script-visible kinds and read the payload with the accessor of that kind; only sameValue distinguishes the zeros (math.Signbit) and equates NaN with itself; [[DefineOwnProperty]] compares values with sameValue and nothing else; indexOf, lastIndexOf and the switch statement compare with the strict algorithm and never with sameValue",
 		Run: ruleSibEquality})
 	register(&Rule{ID: "CLONE-loops", Props: []string{"C17"}, Min: 2,
